@@ -26,3 +26,23 @@ Example C01_block_example :
     bw_finish w = Done buf /\ parse_block buf = Done b /\
     omap (map snd) (block_entries b) = Done [([], [1]); ([0], []); ([0; 255], [2; 3]); ([1], [4])].
 Proof. eexists. eexists. eexists. vm_compute. repeat split; reflexivity. Qed.
+
+(* ================= scans of a whole well-formed store of ANY index depth (wf_store, content: see C03.v):
+   move_on_next from a fresh cursor returns exactly the content in order and then None; move_on_prev
+   returns it in reverse and then None — nothing lost, duplicated or reordered ================= *)
+From Grenad.model Require Import Reader.
+From Grenad.proofs Require Import ReaderRefine.
+
+Theorem C01_scan_forward : forall ld root levels bstore, wf_store ld root levels bstore ->
+  (0 < length (content root levels bstore))%nat ->
+  exists st' rs, run_ops ld root levels cs_fresh (repeat ONext (S (length (content root levels bstore)))) = Done (st', rs) /\
+    rs = map Some (content root levels bstore) ++ [None].
+Proof. exact scan_forward. Qed.
+Print Assumptions C01_scan_forward.
+
+Theorem C01_scan_backward : forall ld root levels bstore, wf_store ld root levels bstore ->
+  (0 < length (content root levels bstore))%nat ->
+  exists st' rs, run_ops ld root levels cs_fresh (repeat OPrev (S (length (content root levels bstore)))) = Done (st', rs) /\
+    rs = map Some (rev (content root levels bstore)) ++ [None].
+Proof. exact scan_backward. Qed.
+Print Assumptions C01_scan_backward.
